@@ -76,7 +76,7 @@ def gen_case(rng, name, with_unknown, single_class=False):
   d = int(rng.integers(2, 5))
   ncls = int(rng.integers(2, 4))
   X, y = gen.dataset(rng, d=d, n_classes=ncls, per_class=max(5, int(np.ceil(4 * d / ncls)) + 1))
-  y = y.copy()
+  y = gen.relabel(rng, y) if rng.random() < 0.5 else y.copy()      # class ids are names: gaps, not starting at 0
   if with_unknown:
     # unlabeled points at arbitrary positions (including the very first rows), every class keeps >= 4 members
     for i in rng.permutation(len(y)):
